@@ -25,6 +25,16 @@ def _wrap_cancel(cls, orig):
     return cancel
 
 
+def _executor_name(fut):
+    """name of the executor a PollFuture / RetryFuture belongs to, read from the INSTANCE dict only: a plain getattr on a ProxyFuture
+    would be forwarded to its result - and block on the very future that is being completed"""
+    try:
+        ex = object.__getattribute__(fut, "__dict__").get("_executor")
+        return object.__getattribute__(ex, "__dict__").get("_name") if ex is not None else None
+    except Exception:
+        return None
+
+
 def _wrap_set(cls, orig, kind):
     @functools.wraps(orig)
     def setter(self, value):
@@ -33,7 +43,7 @@ def _wrap_set(cls, orig, kind):
             return orig(self, value)
         nm = s.name_of(self, "f")
         s.ev("fset>", nm, kind, s.name_of(value, "x") if isinstance(value, BaseException) else None, cls.__name__,
-             getattr(getattr(self, "_executor", None), "_name", None))
+             _executor_name(self))
         try:
             r = orig(self, value)
         except BaseException as e:
